@@ -213,18 +213,44 @@ fn fft_family(ctx: &Ctx) {
                 }
             }
         }
-        // wrong-length root table must panic (it is a precondition)
-        if with_table && zf.is_none() && k >= 1 {
-            ctx.tick(1);
-            let wrong = fft_root_table::<F>(n * 2);
-            let res = guarded(|| fft_with_options(PolynomialCoeffs::new(fv(&vec![1; n])), None, Some(&wrong)));
-            match res {
-                Err(msg) if msg.contains("Expected root table of length") => ctx.class("fft:wrong-table:panics"),
-                Err(msg) => ctx.violation("fft:wrong-table", format!("fft wrong table k={k}"), format!("unexpected panic {msg}")),
-                Ok(vals) => {
-                    // accepted silently: then it must at least be correct
-                    if cv(&vals.values) != naive_dft(&vec![1; n], omega, 1) {
-                        ctx.violation("fft:wrong-table", format!("fft wrong table k={k}"), "a larger root table was accepted and produced wrong values");
+        // a root table built for another size: rejected (the documented precondition, a panic), or - should an
+        // implementation choose to accept it - the values of direct evaluation; never silently other values
+        if with_table && zf.is_none() {
+            for mult in [2usize, 4, 8] {
+                let wrong = fft_root_table::<F>(n * mult);
+                let mut inputs: Vec<(String, Vec<u64>)> = vec![("ones".into(), vec![1; n]), ("dense".into(), dense_vec(n, 99 + k as u64))];
+                if n >= 2 {
+                    let mut e1 = vec![0; n];
+                    e1[1] = 1;
+                    inputs.push(("e1".into(), e1));
+                }
+                for (iname, inp) in inputs {
+                    let case = format!("fft wrong table k={k} table_size={}n input={iname}", mult);
+                    if !ctx.want(&case) {
+                        continue;
+                    }
+                    ctx.tick(1);
+                    let res = guarded(|| fft_with_options(PolynomialCoeffs::new(fv(&inp)), None, Some(&wrong)));
+                    match res {
+                        Err(msg) if msg.contains("Expected root table of length") => ctx.class("fft:wrong-table:panics"),
+                        Err(msg) => ctx.violation("fft:wrong-table", case.clone(), format!("unexpected panic {msg}")),
+                        Ok(vals) => {
+                            if cv(&vals.values) != naive_dft(&inp, omega, 1) {
+                                ctx.violation("fft:wrong-table", case.clone(), "a root table built for a larger size was accepted and produced values that differ from direct evaluation");
+                            } else {
+                                ctx.class("fft:wrong-table:accepted-and-correct");
+                            }
+                        }
+                    }
+                    let res = guarded(|| ifft_with_options(PolynomialValues::new(fv(&inp)), None, Some(&wrong)));
+                    match res {
+                        Err(msg) if msg.contains("Expected root table of length") => ctx.class("ifft:wrong-table:panics"),
+                        Err(msg) => ctx.violation("ifft:wrong-table", case.clone(), format!("unexpected panic {msg}")),
+                        Ok(c) => {
+                            if naive_dft(&cv(&c.coeffs), omega, 1) != inp.iter().map(|x| x % P).collect::<Vec<_>>() {
+                                ctx.violation("ifft:wrong-table", case, "a root table built for a larger size was accepted and the result does not interpolate the input");
+                            }
+                        }
                     }
                 }
             }
